@@ -236,6 +236,7 @@ func runC05(c *an.Ctx) {
 	// the response-count bound used above: sendMessage reads at most req.Amount responses
 	sendMessageBound(c, "C05.d", s)
 	checkClientMetricsArithmetic(c, "C05.d")
+	checkOptionalCollaboratorsGuarded(c, "C05.d")
 
 	// --- C05.e final order
 	st, sf := c.T(s.sesGet), c.F(s.sesGet)
